@@ -19,9 +19,15 @@ ASSUMPTIONS = ['int(), range(), sorted(), enumerate() behave as documented']
 MINIMUM = {'R13.1': 4, 'R13.2': 2, 'R13.3': 3, 'R13.4': 2, 'R13.5': 1, 'R13.6': 1}
 
 
+
+
+
+
 # rules of sibling properties that are necessary conditions of this one too
 # (evaluated by the sibling module on the same graphs, reported under this property)
-ALSO = {'C09': {'R09.6': ('every *.trashinfo is offered (indices refer to the whole listing)', 'restore:')},
+ALSO = {'C03': {'R03.1': ('the location offered is the decoded Path, decoded once', 'restore')},
+ 'C09': {'R09.6': ('every *.trashinfo is offered (indices refer to the whole listing)',
+                   'restore:')},
  'C19': {'R19.2': 'the listing is sorted with a total key'}}
 
 def check(ctx):
@@ -158,6 +164,17 @@ def check(ctx):
                 ctx.ob('R13.2', 'scope test matches at a path-component boundary', ok, node=n,
                        message='entries are offered when their location merely starts with %s '
                                '(/a/foo also selects /a/foobar)' % short(arg, 80))
+                # ... and it is applied to the location as recorded: byte-different
+                # directories are different directories (no case / Unicode folding)
+                folded = [a for a in flat(x.recv) if not (
+                    is_call(a, *JOIN) and len(location_joins(a)) >= 1 and
+                    same(location_joins(a)[0][2], a))]
+                ctx.ob('R13.2', 'scope test is applied to the original location unchanged',
+                       not folded, node=n,
+                       message='the location compared with the requested directory is %s, '
+                               'not the recorded one: entries of a different directory whose '
+                               'name folds to the same string are offered too'
+                               % (short(folded[0], 100) if folded else ''))
     # ---- R13.6 the requested directory is normpath(join(cwd, argument)): gluing a
     # separator to the cwd yields '//' for cwd '/', which POSIX normpath keeps, and no
     # location starts with '///'
